@@ -840,6 +840,9 @@ const T3: [&str; 3] = ["/a", "/a/a", "/zz"];
 /// names where one is a textual prefix of the other: string-level path comparisons inside the
 /// traversal / snapshot code only show on such names
 const TP: [&str; 5] = ["/a", "/ab", "/a/a", "/ab/a", "/zz"];
+/// names where one is the other plus a character that sorts below the separator ('-' < '/'): ordering whole
+/// path strings and ordering sibling names give different results only on such names
+const TD: [&str; 2] = ["/a", "/a-"];
 
 fn env_n(name: &str) -> Option<usize> {
     std::env::var(name).ok().and_then(|x| x.parse().ok())
@@ -851,10 +854,10 @@ fn memfs_spaces(t: Tier) -> (String, Vec<TreeSpace>) {
         return (format!("names {{a,b,c}} <= {} entries, targets {:?} (env override)", n, T5), vec![space(&["a", "b", "c"], n, &T5)]);
     }
     match t {
-        Tier::Quick => (format!("names {{a,b,c}}, <= 3 entries, depth <= 3, link targets {:?}; plus prefix-related names {{a,ab}}, <= 3 entries, targets {:?}", T5, TP), vec![space(&["a", "b", "c"], 3, &T5), space(&["a", "ab"], 3, &TP)]),
+        Tier::Quick => (format!("names {{a,b,c}}, <= 3 entries, depth <= 3, link targets {:?}; plus prefix-related names {{a,ab}}, <= 3 entries, targets {:?}, plus names {{a,a-}} <= 3 entries", T5, TP), vec![space(&["a", "b", "c"], 3, &T5), space(&["a", "ab"], 3, &TP), space(&["a", "a-"], 3, &TD)]),
         Tier::Thorough => (
             format!("names {{a,b,c}}, <= 4 entries, depth <= 3, link targets {:?}; plus names {{a,b}}, <= 6 entries, depth <= 3, link targets {:?}; plus prefix-related names {{a,ab}}, <= 5 entries, targets {:?}", T5, T3, TP),
-            vec![space(&["a", "b", "c"], 4, &T5), space(&["a", "b"], 6, &T3), space(&["a", "ab"], 5, &TP)],
+            vec![space(&["a", "b", "c"], 4, &T5), space(&["a", "b"], 6, &T3), space(&["a", "ab"], 5, &TP), space(&["a", "a-"], 4, &TD)],
         ),
     }
 }
@@ -864,10 +867,10 @@ fn stdfs_spaces(t: Tier) -> (String, Vec<TreeSpace>) {
         return (format!("names {{a,b,c}} <= {} entries, targets {:?}, resolving links only (env override)", n, T5), vec![space(&["a", "b", "c"], n, &T5)]);
     }
     match t {
-        Tier::Quick => (format!("names {{a,b,c}}, <= 3 entries, depth <= 3, link targets {:?}, plus names {{a,ab}} targets {:?}, every link resolving to a non-link", T5, TP), vec![space(&["a", "b", "c"], 3, &T5), space(&["a", "ab"], 3, &TP)]),
+        Tier::Quick => (format!("names {{a,b,c}}, <= 3 entries, depth <= 3, link targets {:?}, plus names {{a,ab}} targets {:?}, every link resolving to a non-link", T5, TP), vec![space(&["a", "b", "c"], 3, &T5), space(&["a", "ab"], 3, &TP), space(&["a", "a-"], 3, &TD)]),
         Tier::Thorough => (
             format!("names {{a,b,c}}, <= 4 entries, link targets {:?}; plus names {{a,b}}, <= 5 entries, link targets {:?}; depth <= 3, every link resolving to a non-link", T5, T3),
-            vec![space(&["a", "b", "c"], 4, &T5), space(&["a", "b"], 5, &T3)],
+            vec![space(&["a", "b", "c"], 4, &T5), space(&["a", "b"], 5, &T3), space(&["a", "a-"], 4, &TD)],
         ),
     }
 }
